@@ -19,6 +19,8 @@ PYVC_MODULES = [
     "contracts.blockwise",
     "contracts.splits",
     "contracts.hamiltonians",
+    "contracts.modes",
+    "contracts.contraction",
 ]
 
 BASE = [A_BUILTINS, A_INT, A_TERM, A_NUMPY, A_BOUNDED, A_USER]
@@ -138,7 +140,7 @@ _ALL = {
 _HERE = os.path.dirname(os.path.dirname(os.path.abspath(__file__)))
 PROPERTY_MAP = {}
 NOT_APPLICABLE = {}
-PENDING = ["C01", "C02", "C06", "C08", "C09", "C14"]  # drivers still being written / triaged
+PENDING = ["C01", "C09", "C14"]  # drivers still being written / triaged
 for _pid, _pm in _ALL.items():
     if _pid not in PENDING and all(os.path.exists(os.path.join(_HERE, *d.split(".")) + ".py") for d in _pm["bounded"]) and _pid not in os.environ.get("VERIF_DISABLE", "").split(","):
         PROPERTY_MAP[_pid] = _pm
